@@ -935,3 +935,19 @@ func (c *Ctx) plainDocument() {
 
 // the memoised CTE must stay a CTE entry (c07.cte-memo): otherwise `SELECT * FROM dual` changes between two evaluations
 func init() { register("C12", ruleC07CteMemo); register("C02", ruleC07CteMemo) }
+
+func init() { register("C12", ruleC12JoinOrderWindow) }
+
+// ruleC12JoinOrderWindow: the allowance "row order of joins may vary" does not extend to which rows a window keeps.
+func ruleC12JoinOrderWindow(c *Ctx) {
+	c.Doc("c12.join-order-window", "C12 lets the ROW ORDER of a join vary between evaluations, but requires an equal MULTISET of rows. The LIMIT/OFFSET window of exec is cut from the rows in the order the join produced them, so a join executor whose output order follows Go map iteration (or goroutine completion) makes `... JOIN ... LIMIT n` return different rows on re-evaluation. One obligation per join executor that ranges over a Go map while emitting rows")
+	for _, name := range []string{"HashJoinFunc", "JoinFunc", "ParallelJoinFunc", "ParallelHashJoinFunc", "JoinMatchFunc"} {
+		f := c.joinMethod(name)
+		if f == nil {
+			c.Unknown("c12.join-order-window", "(*Join)."+name, "-", "anchor lost")
+			continue
+		}
+		nx := mapRangeNexts(f)
+		c.Check(len(nx) == 0, "c12.join-order-window", "(*Join)."+name, c.P.Pos(f.Pos()), "emits rows in an order that does not depend on map iteration", "emits rows while ranging over a Go map: with LIMIT/OFFSET and no total ORDER BY the window keeps a different multiset of rows on re-evaluation (`SELECT x.a, y.c FROM t x JOIN u y ON x.a = y.a LIMIT 1` returned 6 different rows in 50 runs)")
+	}
+}
